@@ -3,7 +3,7 @@ import ast
 from sa.sym import SELF, is_const, cval, pretty, walk, contains, root_field, mk_cmp, mk_not, mk_bool, mk_bin, SymEval, C
 from sa.model import AnalysisError
 from sa import guards as G
-from sa.bits import BV, BitEval
+from sa.bits import BV, BitEval, T as T_
 from sa.objeval import construct, call_runs, Obj
 from sa.paths import runs_of, replay, Enumerator
 from .common import mname, is_self_call, lensym, sub, field, affine, affine_diff, bind_args, runs, lits, loc
@@ -122,7 +122,12 @@ def dm1_layout(ctx, rule="R-LAYOUT"):
                         b = lo + i
                         if 8 * k <= b < 8 * k + 8 and fld != "cm" and fld in names.values():
                             want[b - 8 * k] = ("b", fld, slo + i)
-                if bv.window(0, 8) != want or bv.width() is None or bv.width() > 8:
+                got = bv.window(0, 8)
+                definite = [i for i in range(8) if got[i] != want[i] and got[i] != T_]
+                if not definite and any(got[i] == T_ for i in range(8)):
+                    ctx.unknown(rule, "DM1 builder: byte %d of a code is not interpretable in the known-bits domain (%s)" % (k, bv.describe()))
+                    return
+                if got != want or bv.width() is None or bv.width() > 8:
                     pr.append("byte %d of a code is %s" % (k, bv.describe()))
             inst = "DM1 builder: each code = 4 little-endian bytes of the packed DTC, in list order"
             it_src = it[0].ev.node.iter
@@ -347,6 +352,8 @@ def lamps(ctx, rule="R-LAMP"):
         w1 = [("b", "d1", lo), ("b", "d1", lo + 1)]
         if key in got and got[key][0].window(0, 2) == w0 and got[key][0].width() == 2 and got[key][1].window(0, 2) == w1 and got[key][1].width() == 2:
             ctx.holds(rule, inst)
+        elif key not in got or got[key][0].has_top() or got[key][1].has_top():
+            ctx.unknown(rule, "%s: extraction construct not recognised" % inst)
         else:
             ctx.violated(rule, p, inst, "extracted from %s" % (got.get(key),), p.node)
 
